@@ -302,7 +302,14 @@ func judgeRoundtrip(rec *ev.Rec, seed, msg []byte, v ref.Variant, n, pos int, ek
 	rec.About(c)
 	bad := ""
 	pan := safe(func() {
-		priv := ed25519.NewKeyFromSeed(seed)
+		// as a caller would: the seed lives in a larger buffer that is
+		// wiped once the key has been derived
+		sbuf := make([]byte, 96)
+		copy(sbuf[:32], seed)
+		priv := ed25519.NewKeyFromSeed(sbuf[:32])
+		for i := range sbuf {
+			sbuf[i] = 0
+		}
 		pub := priv.Public().(ed25519.PublicKey)
 		var sig []byte
 		var err error
